@@ -444,6 +444,8 @@ def stream_rules(facts, rep, E):
                     if not (pb and pb[0] == "field" and pb[2] == "position" and strip_refs(pb[1])[0] == "param"):
                         viol = "passes %s instead of self.position" % (fmt(pos) if pos else "nothing")
                     want = 0
+                    if cat and cat[0] in ("bytes_read", "bytes_write"):
+                        want = 7   # representative length bound to the extra parameter below
                     if cat and cat[0] in ("typed_read", "typed_write"):
                         want = cat[1]
                     elif cat and cat[0] in ("ann_read", "ann_write"):
@@ -457,9 +459,12 @@ def stream_rules(facts, rep, E):
                         inc = 0
                         for w in writes:
                             try:
-                                inc = E.ev(w["val"], {("p", 1): Ref({"position": 1000, "archive": Adt("o", "A")})}, b) - 1000
+                                env7 = {("p", 1): Ref({"position": 1000, "archive": Adt("o", "A")})}
+                                for pi in range(2, b.argc + 1):
+                                    env7[("p", pi)] = Ref({"len": 7}) if b.local_ty(pi).startswith("&[") else 7
+                                inc = E.ev(w["val"], env7, b) - 1000
                             except (Unknown, Panic, TypeError) as u:
-                                viol = "cursor update not evaluable: %s" % u
+                                rep.inconc(R7, "%s: cursor update not evaluable: %s" % (b.name, u))
                         if len(writes) > 1:
                             viol = "cursor written %d times" % len(writes)
                         if inc != want and not viol:
